@@ -149,6 +149,44 @@ fn c26_program(idx: usize, dsl: &str, o: &mut String) {
     writeln!(o, "}}").unwrap();
 }
 
+fn c25_program(idx: usize, dsl: &str, o: &mut String) {
+    let parts: Vec<&str> = dsl.split(';').collect();
+    let vec_kind = parts[0] == "V";
+    writeln!(o, "pub fn c25_prog_{idx}(rx: RxStream, trig: RxStream, out: Out) -> DfirErased {{").unwrap();
+    for (k, _) in parts.iter().enumerate() {
+        writeln!(o, "    #[allow(unused_variables)] let out{k} = out.clone();").unwrap();
+    }
+    writeln!(o, "    let df = dfir_rs::dfir_syntax! {{").unwrap();
+    if vec_kind {
+        writeln!(o, "        st = source_stream(rx) -> handoff();").unwrap();
+    } else {
+        let init = &parts[0][1..];
+        writeln!(o, "        st = source_stream(rx) -> fold::<'tick>(|| {init}i64, |a: &mut i64, x: i64| *a += x) -> singleton();").unwrap();
+    }
+    writeln!(o, "        st -> for_each(|v: i64| out0.borrow_mut().push((99usize, context.current_tick().0, v)));").unwrap();
+    writeln!(o, "        trg = source_stream(trig) -> tee();").unwrap();
+    for (k, c) in parts.iter().enumerate().skip(1) {
+        let (g, op) = c.split_once(':').unwrap();
+        let grp = if g == "-" { String::new() } else { format!("{{{g}}} ") };
+        let (kind, arg) = op.split_at(1);
+        let body = match (kind, vec_kind) {
+            ("a", false) => format!("*#{grp}mut st += {arg};"),
+            ("m", false) => format!("*#{grp}mut st *= {arg};"),
+            ("r", false) => format!("let v: i64 = *#{grp}st; out{k}.borrow_mut().push(({arg}usize, context.current_tick().0, v));"),
+            ("p", true) => format!("#{grp}mut st.push({arg}i64);"),
+            ("f", true) => format!("#{grp}mut st.retain(|y: &i64| *y % {arg} != 0);"),
+            ("r", true) => format!(
+                "let v: i64 = {{ let b = #{grp}st; (b.len() as i64) * 1000 + b.iter().sum::<i64>() }}; out{k}.borrow_mut().push(({arg}usize, context.current_tick().0, v));"
+            ),
+            _ => panic!("bad closure {c}"),
+        };
+        writeln!(o, "        trg -> map(|x: i64| {{ {body} x }}) -> for_each(|_x: i64| {{}});").unwrap();
+    }
+    writeln!(o, "    }};").unwrap();
+    writeln!(o, "    df.into_erased()").unwrap();
+    writeln!(o, "}}").unwrap();
+}
+
 fn lines(path: &str) -> Vec<String> {
     println!("cargo:rerun-if-changed={path}");
     fs::read_to_string(path)
@@ -185,4 +223,16 @@ fn main() {
     }
     writeln!(o, "];").unwrap();
     fs::write(out_dir.join("c26_progs.rs"), o).unwrap();
+
+    let mut o = String::new();
+    let progs = lines("programs/c25.txt");
+    for (i, p) in progs.iter().enumerate() {
+        c25_program(i, p, &mut o);
+    }
+    writeln!(o, "pub static C25_PROGS: &[(&str, fn(RxStream, RxStream, Out) -> DfirErased)] = &[").unwrap();
+    for (i, p) in progs.iter().enumerate() {
+        writeln!(o, "    ({p:?}, c25_prog_{i}),").unwrap();
+    }
+    writeln!(o, "];").unwrap();
+    fs::write(out_dir.join("c25_progs.rs"), o).unwrap();
 }
